@@ -79,6 +79,10 @@ type Signature struct {
 	EmbeddedSignature *Signature
 
 	outSubpackets []outputSubpacket
+
+	// embedded is set on a signature that is parsed out of an embedded signature
+	// subpacket. Such a signature must not embed another one.
+	embedded bool
 }
 
 func (sig *Signature) parse(r io.Reader) (err error) {
@@ -382,7 +386,15 @@ func parseSignatureSubpacket(sig *Signature, subpacket []byte, isHashed bool) (r
 			err = errors.StructuralError("Cannot have multiple embedded signatures")
 			return
 		}
-		sig.EmbeddedSignature = new(Signature)
+		// An embedded signature is a primary key binding signature and has no
+		// use for an embedded signature of its own. Without this check the
+		// nesting depth is limited only by the 64 KiB subpacket area, and every
+		// level copies its hashed area (quadratic in the size of the packet).
+		if sig.embedded {
+			err = errors.StructuralError("embedded signature inside an embedded signature")
+			return
+		}
+		sig.EmbeddedSignature = &Signature{embedded: true}
 		// Embedded signatures are required to be v4 signatures see
 		// section 12.1. However, we only parse v4 signatures in this
 		// file anyway.
